@@ -36,15 +36,19 @@ const (
 	aDNSAddr
 	aCircuit
 	aCircuitBare
+	aCircuitDNS
 )
 
-var oaKindNames = [...]string{"direct", "dns", "dnsaddr", "circuit-via-ip", "circuit-no-ip"}
+var oaKindNames = [...]string{"direct", "dns", "dnsaddr", "circuit-via-ip", "circuit-no-ip", "circuit-via-dns"}
+
+// relaySuffixes: what may stand between the relay's IP and /p2p/<relay>/p2p-circuit.
+var relaySuffixes = []string{"/tcp/%d", "/tcp/%d", "/udp/%d/quic-v1", "/tcp/%d/ws", "/udp/%d/quic-v1/webtransport"}
 
 // endpoint: one concrete address that may reach a transport.
 type endpoint struct {
 	addr   ma.Multiaddr
 	ip     *nip
-	relay  bool
+	relay  bool // a /p2p-circuit address: the IP is the relay's, the dial goes to (or over a connection with) that IP
 	noncan bool // spelled in a non-canonical form
 	edge   bool
 	good   bool // plain TCP/QUIC address of an ordinary IP: nothing but the gater keeps the swarm from dialling it
@@ -93,6 +97,15 @@ func drawEndpoint(rt *rapid.T, w *world, suffix string) endpoint {
 	return ep
 }
 
+// drawRelayEndpoint: a circuit address through a relay at an IP of the pool (any spelling, any relay transport).
+func drawRelayEndpoint(rt *rapid.T, w *world, port int) (endpoint, string) {
+	via := strings.ReplaceAll(rapid.SampledFrom(relaySuffixes).Draw(rt, "relaytransport"), "%d", fmt.Sprint(port))
+	tail := fmt.Sprintf("%s/p2p/%s/p2p-circuit", via, relayID)
+	ep := drawEndpoint(rt, w, tail)
+	ep.relay, ep.good = true, false
+	return ep, tail
+}
+
 func drawOutScenario(rt *rapid.T, w *world) *outScenario {
 	sc := &outScenario{reopen: rapid.Bool().Draw(rt, "reopen")}
 	m := newModel()
@@ -120,7 +133,7 @@ func drawOutScenario(rt *rapid.T, w *world) *outScenario {
 		na := rapid.IntRange(1, 4).Draw(rt, "naddrs")
 		for k := 0; k < na; k++ {
 			port++
-			a := &oaddr{kind: rapid.SampledFrom([]int{aDirect, aDirect, aDirect, aDNS, aDNS, aDNSAddr, aCircuit, aCircuitBare}).Draw(rt, "kind")}
+			a := &oaddr{kind: rapid.SampledFrom([]int{aDirect, aDirect, aDirect, aDNS, aDNS, aDNSAddr, aCircuit, aCircuit, aCircuitDNS, aCircuitBare}).Draw(rt, "kind")}
 			a.succeed = rapid.IntRange(0, 4).Draw(rt, "succeed") > 0
 			a.delay = time.Duration(rapid.SampledFrom([]int{0, 1, 20, 300}).Draw(rt, "delay")) * time.Millisecond
 			sfx := strings.ReplaceAll(rapid.SampledFrom([]string{"/tcp/%d", "/tcp/%d", "/udp/%d/quic-v1", "/udp/%d/quic-v1", "/tcp/%d/ws", "/udp/%d/quic-v1/webtransport"}).Draw(rt, "suffix"), "%d", fmt.Sprint(port))
@@ -144,9 +157,14 @@ func drawOutScenario(rt *rapid.T, w *world) *outScenario {
 					a.eps = append(a.eps, ep)
 				}
 			case aCircuit:
-				ep := drawEndpoint(rt, w, fmt.Sprintf("/tcp/%d/p2p/%s/p2p-circuit", port, relayID))
-				ep.relay, ep.good = true, false
+				ep, _ := drawRelayEndpoint(rt, w, port)
 				a.stored, a.eps = ep.addr, []endpoint{ep}
+			case aCircuitDNS:
+				// the relay is known by name; the swarm resolves the name and gates what it resolved to
+				proto := rapid.SampledFrom([]string{"dns4", "dns6", "dns"}).Draw(rt, "dnsproto")
+				ep, tail := drawRelayEndpoint(rt, w, port)
+				ep.noncan = true
+				a.stored, a.eps = mustAddr(fmt.Sprintf("/%s/r%d.example%s", proto, port, tail)), []endpoint{ep}
 			case aCircuitBare:
 				ad := mustAddr("/p2p/" + relayID.String() + "/p2p-circuit")
 				a.stored, a.eps = ad, []endpoint{{addr: ad}}
@@ -279,8 +297,23 @@ func peerIndex(w *world, p peer.ID) int {
 	return -1
 }
 
-// remoteVerdict: must a connection to/from (peer, addr) be refused under m?
+// remoteVerdict: must a connection to/from (peer, addr) be refused under m? For a /p2p-circuit
+// address the IP is the relay's and the remote is the peer behind it: no verdict from the IP
+// (used for inbound remotes; outbound candidates are judged by dialVerdict).
 func remoteVerdict(m *model, w *world, p peer.ID, a ma.Multiaddr) (tri, string) {
+	return addrVerdict(m, w, p, a, false)
+}
+
+// dialVerdict: must the swarm refuse to dial p at candidate address a (and to hand out / keep an
+// outbound connection made through a)? "Outbound dials are refused before any transport dial to a
+// blocked peer or address": the IP an address names is where the dial goes. For a /p2p-circuit
+// address that is the relay: dialling it opens, or re-uses, a connection with that IP, so a
+// rule in force on the relay's IP rules the candidate out like any direct address.
+func dialVerdict(m *model, w *world, p peer.ID, a ma.Multiaddr) (tri, string) {
+	return addrVerdict(m, w, p, a, true)
+}
+
+func addrVerdict(m *model, w *world, p peer.ID, a ma.Multiaddr, outbound bool) (tri, string) {
 	pv := no
 	if i := peerIndex(w, p); i >= 0 {
 		pv = m.peerVerdict(i)
@@ -289,13 +322,15 @@ func remoteVerdict(m *model, w *world, p peer.ID, a ma.Multiaddr) (tri, string) 
 	ip, has, relay := ipOfAddr(a)
 	if has {
 		iv = m.ipVerdict(ip)
-		if relay && iv != no {
+		if relay && iv != no && !outbound {
 			iv = either
 		}
 	}
 	why := ""
 	if pv == yes {
 		why = "the peer is blocked"
+	} else if iv == yes && relay {
+		why = fmt.Sprintf("IP %s of the relay this address goes through matches an address/subnet rule in force", ip)
 	} else if iv == yes {
 		why = fmt.Sprintf("IP %s matches an address/subnet rule in force", ip)
 	}
@@ -359,7 +394,7 @@ func TestOutboundSwarm(t *testing.T) {
 						rs = append(rs, r)
 					}
 					switch a.kind {
-					case aDNS:
+					case aDNS, aCircuitDNS:
 						res.comp[a.stored.String()] = rs
 					case aDNSAddr:
 						res.dnsaddr[a.stored.String()] = rs
@@ -451,14 +486,17 @@ func TestOutboundSwarm(t *testing.T) {
 				perPeerDials := map[peer.ID]int{}
 				for _, d := range phaseDials {
 					perPeerDials[d.Peer]++
-					v, why := remoteVerdict(m, w, d.Peer, d.Addr)
+					v, why := dialVerdict(m, w, d.Peer, d.Addr)
 					if v == yes {
 						rt.Fatalf("%stransport %q was asked to dial peer%d at %s although %s", ctxHist, d.Transport, peerIndex(w, d.Peer), d.Addr, why)
+					}
+					if _, has, relay := ipOfAddr(d.Addr); has && relay && v == no {
+						labels["relay-transport-dialled:relay-ip-free"] = true // circuit addresses do reach the relay transport when nothing forbids it
 					}
 				}
 				// (2) results, connections, notifications
 				for _, e := range nf.take() {
-					if v, why := remoteVerdict(m, w, e.peer, e.addr); v == yes {
+					if v, why := dialVerdict(m, w, e.peer, e.addr); v == yes {
 						rt.Fatalf("%sConnected notification for peer%d at %s although %s", ctxHist, peerIndex(w, e.peer), e.addr, why)
 					}
 				}
@@ -479,12 +517,12 @@ func TestOutboundSwarm(t *testing.T) {
 						}
 					}
 					for _, c := range sw.ConnsToPeer(p) {
-						if v, why := remoteVerdict(m, w, p, c.RemoteMultiaddr()); v == yes {
+						if v, why := dialVerdict(m, w, p, c.RemoteMultiaddr()); v == yes {
 							rt.Fatalf("%sConnsToPeer(peer%d) holds a connection to %s although %s", ctxHist, tg.peer, c.RemoteMultiaddr(), why)
 						}
 					}
 					if r.err == nil && r.addr != nil {
-						if v, why := remoteVerdict(m, w, p, r.addr); v == yes {
+						if v, why := dialVerdict(m, w, p, r.addr); v == yes {
 							rt.Fatalf("%s%s(peer%d) handed out a connection to %s although %s", ctxHist, api, tg.peer, r.addr, why)
 						}
 					}
@@ -497,15 +535,29 @@ func TestOutboundSwarm(t *testing.T) {
 							if ep.ip != nil {
 								iv = m.ipVerdict(*ep.ip)
 							}
-							if ep.relay || iv != yes {
+							if iv != yes {
 								allBlocked = false
 							}
-							if iv == yes && !ep.relay {
+							if iv == yes {
 								labels["blocked-addr:"+oaKindNames[a.kind]] = true
 								if ep.noncan || (ep.edge && m.viaSubnet(*ep.ip)) {
 									nontrivial = true
 									labels["blocked-through-noncanonical-form"] = true
 								}
+							}
+							// is the address reported dialable? (Network.CanDial: the swarm's own answer for one candidate)
+							canDial := sw.CanDial(p, ep.addr)
+							switch {
+							case iv == yes && canDial:
+								rt.Fatalf("%sCanDial(peer%d, %s) reports the address dialable although IP %s matches an address/subnet rule in force", ctxHist, tg.peer, ep.addr, *ep.ip)
+							case iv == yes && ep.relay:
+								labels["candial:blocked-relay-ip-refused"] = true
+							case iv == yes:
+								labels["candial:blocked-direct-refused"] = true
+							case canDial && ep.relay && ep.ip != nil:
+								labels["candial:free-relay-ip-dialable"] = true // (observed, not demanded)
+							case canDial && ep.ip != nil:
+								labels["candial:free-direct-dialable"] = true
 							}
 							if iv == no && ep.good && a.succeed && (a.kind == aDirect || a.kind == aDNS || a.kind == aDNSAddr) {
 								anyGoodFree = true
@@ -529,8 +581,11 @@ func TestOutboundSwarm(t *testing.T) {
 					if pv == no && r.err == nil && !allBlocked {
 						for _, a := range tg.addrs {
 							for _, ep := range a.eps {
-								if ep.ip != nil && !ep.relay && m.ipVerdict(*ep.ip) == yes {
+								if ep.ip != nil && m.ipVerdict(*ep.ip) == yes {
 									labels["mixed-addrs:other-address-dialled"] = true
+									if ep.relay {
+										labels["mixed-addrs:blocked-relay-next-to-dialled-address"] = true
+									}
 								}
 							}
 						}
